@@ -526,7 +526,7 @@ func (s *sim) gossipSlot(slot uint64, blk *blockRec, parent *blockRec, hb *state
 					s.judge(g, "attestation", what+" whose target is not the checkpoint of its epoch on the voted chain", expInvalidOrTiming, res, p)
 				}
 			case mode == 10: // vote for a block from a later slot than the vote
-				if blk != nil && blk.slot == slot && slot > 0 {
+				if blk != nil && blk.slot == slot && slot > w.cfg.baseSlot() {
 					bad := *att
 					bad.Data.Slot = common.Slot(slot - 1)
 					bad.Data.BeaconBlockRoot = blk.root
